@@ -41,6 +41,7 @@ type Ctx struct {
 	globalStores map[*ssa.Global][2]int
 	immutable    map[string]bool // (struct type, field) never written after construction (frame.go)
 	mutGlobals   map[*ssa.Global]string
+	constTables  map[*ssa.Global]*constTable
 }
 
 var repoRootForRel string
